@@ -8,6 +8,7 @@ import (
 	"go/constant"
 	"go/token"
 	"go/types"
+	"golang.org/x/tools/go/packages"
 	"sort"
 	"strings"
 
@@ -551,10 +552,35 @@ func c03BoundReachesTheCheck(p *Prog, r *Report, rule string) {
 			return false
 		}
 		binfo := fn.Pkg.TypesInfo
-		isStore := func(e ast.Expr) bool {
-			sel, ok := ast.Unparen(e).(*ast.SelectorExpr)
-			return ok && binfo.Uses[sel.Sel] == storeField
+		var isStoreD func(pkg *packages.Package, e ast.Expr, depth int) bool
+		isStoreD = func(pkg *packages.Package, e ast.Expr, depth int) bool {
+			// the map itself, or a view that shares it: a conversion, a helper handed &tx.store, a method that
+			// returns one of those (fileTable(ensureMap(&tx.store)))
+			found := false
+			ast.Inspect(e, func(y ast.Node) bool {
+				if sel, ok := y.(*ast.SelectorExpr); ok && pkg.TypesInfo.Uses[sel.Sel] == storeField {
+					found = true
+				}
+				if c, ok := y.(*ast.CallExpr); ok && depth < 2 && !found {
+					if h := p.staticCallee(pkg, c); h != nil && h.Decl.Body != nil {
+						ast.Inspect(h.Decl.Body, func(z ast.Node) bool {
+							if rs, ok := z.(*ast.ReturnStmt); ok {
+								for _, res := range rs.Results {
+									if isStoreD(h.Pkg, res, depth+1) {
+										found = true
+									}
+								}
+							}
+							return true
+						})
+					}
+				}
+				return !found
+			})
+			return found
 		}
+		isStore := func(e ast.Expr) bool { return isStoreD(fn.Pkg, e, 0) }
+		_ = binfo
 		for _, st := range body.List {
 			switch s := st.(type) {
 			case *ast.ExprStmt:
@@ -917,17 +943,13 @@ func c11MetadataCarriesNoUserText(p *Prog, r *Report, rule string) {
 				bad = "a slice spread into the key-value list"
 			}
 			for i := first + 1; i < len(c.Args); i += 2 {
-				a := ast.Unparen(c.Args[i])
-				if tv, ok := info.Types[a]; ok && tv.Value != nil {
-					continue
+				if src := c11UserTextSource(p, fi, c.Args[i], 0); src != "" {
+					bad = types.ExprString(c.Args[i]) + " (" + src + ")"
 				}
-				if sel, ok := a.(*ast.SelectorExpr); ok && recv != nil && objOf(info, sel.X) == recv {
-					continue
-				}
-				bad = types.ExprString(a)
 			}
-			r.Check(bad == "", rule, cons, p.pos(c), "values are constants or fields of the receiver",
-				"the metadata value "+bad+" is not a constant or a field of the handle: user-supplied text (a key) as a metadata value must be printable ASCII - for any other key the call is refused on the client with codes.Internal, which the adapter turns into ErrUnknown, where the inline client stores the key (and a missing key reads as ErrUnknown instead of ErrNotFound)")
+			_ = recv
+			r.Check(bad == "", rule, cons, p.pos(c), "no value comes from a parameter of an API method",
+				"the metadata value "+bad+" is text the caller of the API supplied: user-supplied text (a key) as a metadata value must be printable ASCII - for any other key the call is refused on the client with codes.Internal, which the adapter turns into ErrUnknown, where the inline client stores the key (and a missing key reads as ErrUnknown instead of ErrNotFound)")
 			return true
 		})
 	}
@@ -942,91 +964,108 @@ func c11UploadThroughStreamReader(p *Prog, r *Report, rule string) {
 		r.Undecided(rule, k, "", "the SetFile handler not found")
 		return
 	}
-	info := fi.Pkg.TypesInfo
-	var stream types.Object
-	for _, po := range paramObjs(fi) {
-		if po != nil && strings.Contains(po.Type().String(), "SetFileServer") {
-			stream = po
-		}
+	isStream := func(pkg *packages.Package, e ast.Expr) bool {
+		tv, ok := pkg.TypesInfo.Types[e]
+		return ok && strings.Contains(tv.Type.String(), "SetFileServer")
 	}
-	if stream == nil {
-		r.Undecided(rule, k, p.pos(fi.Decl), "no stream parameter")
-		return
+	isStreamReader := func(pkg *packages.Package, c *ast.CallExpr) bool {
+		return p.callIs(pkg, c, "internal/utils/grpc/streamreader.New") && len(c.Args) == 1 && isStream(pkg, c.Args[0])
 	}
-	f := p.FlatInl(fi)
-	isStreamReader := func(c *ast.CallExpr) bool {
-		return p.callIs(fi.Pkg, c, "internal/utils/grpc/streamreader.New") && len(c.Args) == 1 && objOf(info, c.Args[0]) != nil && f.CanonObj(objOf(info, c.Args[0])) == stream
-	}
-	var derives func(e ast.Expr, depth int) bool
-	derives = func(e ast.Expr, depth int) bool {
-		if depth > 4 {
+	var derives func(in *FuncInfo, e ast.Expr, depth int) bool
+	derives = func(in *FuncInfo, e ast.Expr, depth int) bool {
+		if depth > 5 {
 			return false
 		}
+		info := in.Pkg.TypesInfo
 		e = ast.Unparen(e)
 		switch x := e.(type) {
 		case *ast.CallExpr:
-			if isStreamReader(x) {
+			if isStreamReader(in.Pkg, x) {
 				return true
 			}
+			// a helper of the package that answers with such a reader (in.body())
+			if h := p.staticCallee(in.Pkg, x); h != nil && h.Pkg == in.Pkg && h.Decl.Body != nil {
+				got := false
+				walkNoLit(h.Decl.Body, func(y ast.Node) bool {
+					if rs, ok := y.(*ast.ReturnStmt); ok {
+						for _, res := range rs.Results {
+							if derives(h, res, depth+1) {
+								got = true
+							}
+						}
+					}
+					return true
+				})
+				if got {
+					return true
+				}
+			}
 			for _, a := range x.Args {
-				if derives(a, depth+1) {
+				if derives(in, a, depth+1) {
 					return true
 				}
 			}
 		case *ast.Ident:
 			if o := objOf(info, x); o != nil {
-				if al, ok := f.Alias[o]; ok {
-					return derives(al, depth+1)
-				}
-				if rhs := singleDefIn(info, fi.Decl.Body, o); rhs != nil {
-					return derives(rhs, depth+1)
+				if rhs := singleDefIn(info, in.Decl.Body, o); rhs != nil {
+					return derives(in, rhs, depth+1)
 				}
 			}
 		case *ast.UnaryExpr:
-			return derives(x.X, depth+1)
+			return derives(in, x.X, depth+1)
 		case *ast.CompositeLit:
 			for _, el := range x.Elts {
 				if kv, ok := el.(*ast.KeyValueExpr); ok {
 					el = kv.Value
 				}
-				if derives(el, depth+1) {
+				if derives(in, el, depth+1) {
 					return true
 				}
 			}
 		}
 		return false
 	}
-	sets := 0
-	for _, n := range f.Nodes {
-		if n.Ast == nil {
-			continue
-		}
-		for _, c := range callsIn(n.Ast, false) {
-			if !p.callIs(fi.Pkg, c, kStoreSet) || len(c.Args) < 3 {
-				continue
+	local := localClosure(p, k)
+	sets, recvs := 0, 0
+	last := ""
+	for _, lf := range local {
+		walkNoLit(lf.Decl.Body, func(x ast.Node) bool {
+			c, ok := x.(*ast.CallExpr)
+			if !ok {
+				return true
 			}
-			sets++
-			r.Check(derives(c.Args[2], 0), rule, fmt.Sprintf("%s#content-is-the-stream-reader/%d", k, sets), p.pos(c), "Set reads the stream through streamreader.New(stream)",
-				"the content handed to the store use case ("+types.ExprString(c.Args[2])+") is not the stream reader or a reader around it: what Set reads is decoupled from the stream (a pipe filled by a goroutine, a buffer), so a broken or cancelled upload ends as a clean EOF and the partial content is committed while the client is told about the failure")
-		}
+			if p.callIs(lf.Pkg, c, kStoreSet) && len(c.Args) >= 3 {
+				sets++
+				r.Check(derives(lf, c.Args[2], 0), rule, fmt.Sprintf("%s#content-is-the-stream-reader/%d", k, sets), p.pos(c), "Set reads the stream through streamreader.New(stream)",
+					"the content handed to the store use case ("+types.ExprString(c.Args[2])+") is not the stream reader or a reader around it: what Set reads is decoupled from the stream (a pipe filled by a goroutine, a buffer), so a broken or cancelled upload ends as a clean EOF and the partial content is committed while the client is told about the failure")
+			}
+			if sel, ok := ast.Unparen(c.Fun).(*ast.SelectorExpr); ok && sel.Sel.Name == "Recv" && isStream(lf.Pkg, sel.X) {
+				recvs++
+				last = p.pos(c)
+			}
+			return true
+		})
+		// (function literals of the handler: a goroutine that receives is a receive of the handler)
+		ast.Inspect(lf.Decl.Body, func(x ast.Node) bool {
+			lit, ok := x.(*ast.FuncLit)
+			if !ok {
+				return true
+			}
+			ast.Inspect(lit.Body, func(y ast.Node) bool {
+				if c, ok := y.(*ast.CallExpr); ok {
+					if sel, ok := ast.Unparen(c.Fun).(*ast.SelectorExpr); ok && sel.Sel.Name == "Recv" && isStream(lf.Pkg, sel.X) {
+						recvs++
+						last = p.pos(c)
+					}
+				}
+				return true
+			})
+			return false
+		})
 	}
 	if sets == 0 {
 		r.Undecided(rule, k+"#content-is-the-stream-reader", p.pos(fi.Decl), "the call of the store use case's Set was not found in the handler")
 	}
-	// one Recv: the header
-	recvs := 0
-	last := ""
-	ast.Inspect(fi.Decl.Body, func(x ast.Node) bool {
-		c, ok := x.(*ast.CallExpr)
-		if !ok {
-			return true
-		}
-		if sel, ok := ast.Unparen(c.Fun).(*ast.SelectorExpr); ok && sel.Sel.Name == "Recv" && objOf(info, sel.X) == stream {
-			recvs++
-			last = p.pos(c)
-		}
-		return true
-	})
 	r.Check(recvs == 1, rule, k+"#one-recv-the-header", p.pos(fi.Decl), "the handler receives the header only",
 		fmt.Sprintf("the handler calls stream.Recv %d times (last at %s): a message after the header is content, and its absence - io.EOF - is how an empty upload ends; treated like the header's error it turns Set(key, nil) / Create+Close into ErrUnknown over gRPC where the inline client stores an empty file", recvs, last))
 }
@@ -1178,4 +1217,77 @@ func c16StoppedOnlyWhenThrough(p *Prog, r *Report, rule string) {
 	}
 	r.Check(bad == "", rule, cons, p.pos(fi.Decl), fmt.Sprintf("%d waits, nothing re-admits Run before them", len(waits)),
 		"Stop marks the pool as not running at "+bad+" and waits for the senders / workers afterwards: a Run that overlaps the waiting Stop is admitted, replaces the context and the channel and adds workers to the very wait group Stop waits on - the Stop never returns (or closes the new channel under the new workers)")
+}
+
+// c11UserTextSource follows a metadata value back: constants, fields, results of calls (the id the server answered)
+// are fine; a parameter of an unexported helper is followed to the helper's call sites; a string parameter of an
+// exported function or method of the client is the user's text. Returns a description of that source, or "".
+func c11UserTextSource(p *Prog, fi *FuncInfo, e ast.Expr, depth int) string {
+	if depth > 5 {
+		return ""
+	}
+	info := fi.Pkg.TypesInfo
+	e = ast.Unparen(e)
+	if tv, ok := info.Types[e]; ok && tv.Value != nil {
+		return ""
+	}
+	id, ok := e.(*ast.Ident)
+	if !ok {
+		if c, isCall := e.(*ast.CallExpr); isCall {
+			// a conversion or a pure string helper of its argument: string(key), strings.ToValidUTF8(key, "")
+			if tv, ok := info.Types[c.Fun]; ok && tv.IsType() && len(c.Args) == 1 {
+				return c11UserTextSource(p, fi, c.Args[0], depth+1)
+			}
+		}
+		return ""
+	}
+	o := objOf(info, id)
+	if o == nil {
+		return ""
+	}
+	// a parameter of this function (or of the function enclosing a literal)?
+	idx := -1
+	i := 0
+	for _, fld := range fi.Decl.Type.Params.List {
+		for _, nm := range fld.Names {
+			if info.Defs[nm] == o {
+				idx = i
+			}
+			i++
+		}
+	}
+	if idx < 0 {
+		if rhs := singleDefIn(info, fi.Decl.Body, o); rhs != nil {
+			return c11UserTextSource(p, fi, rhs, depth+1)
+		}
+		return ""
+	}
+	if fi.Obj.Exported() {
+		if bt, ok := o.Type().Underlying().(*types.Basic); ok && bt.Info()&types.IsString != 0 {
+			return "parameter " + o.Name() + " of " + fi.Key
+		}
+		return ""
+	}
+	// unexported helper: every call site
+	for _, ck := range sortedFuncKeys(p) {
+		cfi := p.Funcs[ck]
+		if cfi.Decl.Body == nil || cfi.Pkg != fi.Pkg {
+			continue
+		}
+		res := ""
+		ast.Inspect(cfi.Decl.Body, func(x ast.Node) bool {
+			c, ok := x.(*ast.CallExpr)
+			if !ok || p.staticCallee(cfi.Pkg, c) != fi || idx >= len(c.Args) {
+				return true
+			}
+			if src := c11UserTextSource(p, cfi, c.Args[idx], depth+1); src != "" {
+				res = src
+			}
+			return true
+		})
+		if res != "" {
+			return res
+		}
+	}
+	return ""
 }
